@@ -12,8 +12,7 @@ MUTANTS = [
  ("scan-never", ("IF ~d.oo /\\ Get(S1.mem, d.k).computed > r.built", "IF FALSE /\\ Get(S1.mem, d.k).computed > r.built"), "MC_BS1.tla", "MC_BS1_quick.cfg", {"OutputsClean", "SeenCurrent"}),
  ("drop-discovered", ("Finish(S2, k, v, FALSE, ideps \\o DepsOf(disc))", "Finish(S2, k, v, FALSE, ideps)"), "MC_BS1.tla", "MC_BS1_c11.cfg", {"OutputsClean", "SeenCurrent"}),
  ("outputs-not-checked", ("/\\ \\A j \\in 1..Len(d.outs) : IsVirtual(d.outs[j]) \\/ v.i[j] = Info(F, PathOf(d.outs[j]))", "/\\ TRUE"), "MC_BS1.tla", "MC_BS1_quick.cfg", {"OutputsClean", "SeenCurrent"}),
- ("failure-feeds", ('IF v.k \\in {"FailedCommand", "PropagatedFailureCommand", "CancelledCommand"} THEN VFailedIn', 'IF v.k \\in {"PropagatedFailureCommand", "CancelledCommand"} THEN VFailedIn'), "MC_BS1.tla", "MC_BS1_c10.cfg", {"FailureStops"}),
- ("failed-valid", ('/\\ v.k = "SuccessfulCommand"\n         /\\ Len(v.i) = Len(d.outs)', '/\\ v.k \\in {"SuccessfulCommand", "FailedCommand"}\n         /\\ (v.k = "FailedCommand" \\/ Len(v.i) = Len(d.outs))'), "MC_BS1.tla", "MC_BS1_c10.cfg", {"FailureRetried", "OutputsClean"}),
+ ("failure-feeds", ('ELSE IF v.k = "FailedInput" THEN "failed"', 'ELSE IF FALSE THEN "failed"'), "MC_BS1.tla", "MC_BS1_c10.cfg", {"FailureStops"}),
  ("sig-ignored", ("ELSE IF r.sig # SigOf(k) THEN RunRule(k, S, \"SignatureChanged\", NoKey)", "ELSE IF FALSE THEN RunRule(k, S, \"SignatureChanged\", NoKey)"), "MC_BS1.tla", "MC_BS1_c09.cfg", {"OutputsClean", "SeenCurrent"}),
  ("missing-command-silent", ("IF c \\notin Cmds THEN Finish(S, k, VInvalid, TRUE, <<>>)", "IF c \\notin Cmds THEN Finish(S, k, VInvalid, FALSE, <<>>)"), "MC_BS1.tla", "MC_BS1_thorough.cfg", set()),
  ("tree-children-ignored", ("[q \\in kids |-> <<F[q].s, IF F[q].t = \"dir\" THEN TreeObs(F, q, filt) ELSE <<>> >>] >>", "[q \\in kids |-> <<0, IF F[q].t = \"dir\" THEN TreeObs(F, q, filt) ELSE <<>> >>] >>"), "MC_BS2.tla", "MC_BS2_quick.cfg", set()),
